@@ -40,7 +40,7 @@ def gen_class(rng):
         r = rng.random()
         if r < 0.3:
             disc = rng.sample(names, rng.randint(1, min(2, nf)))
-        style = rng.choice(["raise", "yield", "yield_path"])
+        style = rng.choice(["raise", "yield", "yield_path", "yield_many"])
         in_base = nb > 0 and rng.random() < 0.3 and all(d in names[:nb] for d in deps) and (fld is None or fld in names[:nb]) \
             and (disc is None or all(d in names[:nb] for d in disc))
         helper_in_base = via_helper and not in_base and nb > 0 and all(d in names[:nb] for d in deps) and rng.random() < 0.6
@@ -82,6 +82,13 @@ def class_src(c):
                 L.append(f"        if {v['id']} in FAIL: raise ValidationError('v{v['id']} failed')")
             elif v["style"] == "yield":
                 L.append(f"        if {v['id']} in FAIL: yield 'v{v['id']} failed'")
+                L.append("        if False: yield 'never'")
+            elif v["style"] == "yield_many":     # several errors of one run, sharing a path or its first component
+                L.append(f"        if {v['id']} in FAIL:")
+                L.append(f"            yield ('sub', 1), 'v{v['id']} failed'")
+                L.append(f"            yield ('sub', 1), 'v{v['id']} failed b'")
+                L.append(f"            yield ('sub', 2), 'v{v['id']} failed c'")
+                L.append(f"            yield 'v{v['id']} failed d'")
                 L.append("        if False: yield 'never'")
             else:
                 L.append(f"        if {v['id']} in FAIL: yield ('sub', 1), 'v{v['id']} failed'")
@@ -183,6 +190,17 @@ def run(tier):
                     if i in failing and f"v{i} failed" not in msgs:
                         R.violation(f"the error of validator v{i} is missing from the merged errors", dict(source=src, data=data, failing=failing, errors=outcome[1]))
                 for v in vs:
+                    if v["id"] in log and v["id"] in failing:
+                        # every error of the run, at its own path (under the field alias for a field validator)
+                        pre = [next(f["alias"] for f in fields if f["name"] == v["field"])] if v["field"] else []
+                        want = {"raise": [([], "")], "yield": [([], "")], "yield_path": [(["sub", 1], "")],
+                                "yield_many": [(["sub", 1], ""), (["sub", 1], " b"), (["sub", 2], " c"), ([], " d")]}[v["style"]]
+                        for path, suffix in want:
+                            ent = dict(loc=pre + path, err=f"v{v['id']} failed{suffix}")
+                            if ent not in outcome[1]:
+                                R.violation(f"the error {ent} of validator v{v['id']} is missing from the merged errors",
+                                            dict(source=src, data=data, failing=failing, errors=outcome[1]))
+                                break
                     if v["id"] in log and v["id"] in failing and v["field"]:
                         al = next(f["alias"] for f in fields if f["name"] == v["field"])
                         locs = [e["loc"] for e in outcome[1] if e["err"] == f"v{v['id']} failed"]
